@@ -401,6 +401,11 @@ class Interp:
                 r = max(lo, min(hi, int(v))) if not math.isinf(v) else (hi if v > 0 else lo)
             return BV(ii[0], r, signed=ii[1])
         if kind == 'FloatToFloat':
+            if self.resolve_ty(ty) == 'f32' and isinstance(v, float) and v == v and not math.isinf(v):
+                try:
+                    return struct.unpack('<f', struct.pack('<f', v))[0]       # f64 -> f32 rounds to nearest
+                except OverflowError:
+                    return math.inf if v > 0 else -math.inf
             return v
         if kind.startswith('PointerCoercion(Unsize'):
             if isinstance(v, RefV) and v.win is None:
